@@ -94,6 +94,10 @@ class BiLinearForm(_Form):
                 # sum on gauss points
                 values_e = (values_e_pg * dX_e_pg).integrate()
 
+                # a complex-valued form keeps its imaginary part
+                if np.iscomplexobj(values_e) and not np.iscomplexobj(data):
+                    data = data.astype(complex)
+
                 # add data (a product form such as `u * v` of scalar fields keeps a trailing unit axis)
                 # row = test function v_j, column = trial function u_i, so that (K u)_j = a(u, v_j)
                 data[:, j, i] = np.reshape(values_e, groupElem.Ne)
@@ -171,6 +175,10 @@ class LinearForm(_Form):
 
             # sum on gauss points
             values_e = (values_e_pg * dX_e_pg).integrate()
+
+            # a complex-valued form keeps its imaginary part
+            if np.iscomplexobj(values_e) and not np.iscomplexobj(data):
+                data = data.astype(complex)
 
             # add data (the form is scalar valued: (Ne,) or (Ne, 1) once integrated)
             data[:, i, 0] = np.reshape(values_e, groupElem.Ne)
